@@ -652,18 +652,24 @@ def lift_gridsearch(tree, src, out, meta):
     # where `is_classification_reduction` comes from: `if isinstance(self.constraints, ClassificationMoment): True else: False`
     icr = [s for s in fb if isinstance(s, ast.If) and any(assign_to(t, "is_classification_reduction") for t in strip_docs(s.body))]
     others = [n for n in ast.walk(fit) if isinstance(n, ast.Assign) and any(ast.unparse(t) == "is_classification_reduction" for t in n.targets)]
-    cd = one(icr, "`if isinstance(self.constraints, ClassificationMoment):` defining is_classification_reduction")
-    if ast.unparse(cd.test) != "isinstance(self.constraints, ClassificationMoment)" or len(others) != 2:
-        raise U(f"is_classification_reduction is not decided by isinstance(self.constraints, ClassificationMoment): {ast.unparse(cd.test)}")
-    cvals = []
-    for blk in (cd.body, cd.orelse):
-        nm, v = values_assign(strip_docs(blk), "is_classification_reduction")
-        if nm != "is_classification_reduction" or not (isinstance(v, ast.Constant) and isinstance(v.value, bool)):
-            raise U(f"is_classification_reduction is not assigned a literal Boolean: {ast.unparse(cd)}")
-        cvals.append("true" if v.value else "false")
+    ictest = "isinstance(self.constraints, ClassificationMoment)"
+    direct = [s for s in fb if assign_to(s, "is_classification_reduction")]
+    if not icr and len(direct) == 1 and len(others) == 1 and ast.unparse(direct[0].value) == ictest:
+        # the same flag written as `is_classification_reduction = isinstance(self.constraints, ClassificationMoment)`
+        cd, cvals = direct[0], ["true", "false"]
+    else:
+        cd = one(icr, "`if isinstance(self.constraints, ClassificationMoment):` defining is_classification_reduction")
+        if ast.unparse(cd.test) != ictest or len(others) != 2:
+            raise U(f"is_classification_reduction is not decided by {ictest}: {ast.unparse(cd.test)}")
+        cvals = []
+        for blk in (cd.body, cd.orelse):
+            nm, v = values_assign(strip_docs(blk), "is_classification_reduction")
+            if nm != "is_classification_reduction" or not (isinstance(v, ast.Constant) and isinstance(v.value, bool)):
+                raise U(f"is_classification_reduction is not assigned a literal Boolean: {ast.unparse(cd)}")
+            cvals.append("true" if v.value else "false")
     if fb.index(cd) > fb.index(loop):
         raise U("is_classification_reduction is decided after the loop over the grid")
-    meta["isClassification"] = f"{ast.unparse(cd.test)} -> {cvals[0]} / {cvals[1]}"
+    meta["isClassification"] = f"{ictest} -> {cvals[0]} / {cvals[1]}"
     if not (lb.index(lam) < lb.index(w0) < lb.index(add) < lb.index(rel)):
         raise U("order of lambda_vec / weights / objective weights / relabelling changed")
     # dummy rule
